@@ -211,10 +211,29 @@ struct Env {
     slots: BTreeMap<u32, Slot>,
     tokens: Vec<Token>,
     handles: Handles,
+    tx: BTreeMap<u32, async_channel::Sender<u64>>,
+    rx: BTreeMap<u32, async_channel::Receiver<u64>>,
+}
+
+/// channel end handed to a spawned task
+enum ChanEnd {
+    Tx(u32, async_channel::Sender<u64>),
+    Rx(u32, async_channel::Receiver<u64>),
 }
 
 /// `slots`: join handles inherited from the enclosing task (branches of a join / select may await them)
 fn interp_with<Ef: SimEffect>(task: Task, init: u64, ctx: CommandContext<Ef, Event>, slots: BTreeMap<u32, Slot>, handles: Handles) -> BoxFuture<'static, u64> {
+    interp_full::<Ef>(task, init, ctx, slots, handles, None)
+}
+
+fn interp_full<Ef: SimEffect>(
+    task: Task,
+    init: u64,
+    ctx: CommandContext<Ef, Event>,
+    slots: BTreeMap<u32, Slot>,
+    handles: Handles,
+    end: Option<ChanEnd>,
+) -> BoxFuture<'static, u64> {
     async move {
         let mut env = Env {
             acc: init,
@@ -224,7 +243,18 @@ fn interp_with<Ef: SimEffect>(task: Task, init: u64, ctx: CommandContext<Ef, Eve
             slots,
             tokens: vec![],
             handles,
+            tx: BTreeMap::new(),
+            rx: BTreeMap::new(),
         };
+        match end {
+            Some(ChanEnd::Tx(c, t)) => {
+                env.tx.insert(c, t);
+            }
+            Some(ChanEnd::Rx(c, r)) => {
+                env.rx.insert(c, r);
+            }
+            None => {}
+        }
         run_stmts::<Ef>(&task.stmts, &mut env, &ctx).await;
         env.acc
     }
@@ -355,6 +385,39 @@ fn run_stmts<'a, Ef: SimEffect>(
                         f();
                     }
                 }
+                Stmt::SpawnChan { c, child_sends, task, slot } => {
+                    let (tx, rx) = async_channel::unbounded::<u64>();
+                    let end = if *child_sends {
+                        env.rx.insert(*c, rx);
+                        ChanEnd::Tx(*c, tx)
+                    } else {
+                        env.tx.insert(*c, tx);
+                        ChanEnd::Rx(*c, rx)
+                    };
+                    let t = task.clone();
+                    let acc = env.acc;
+                    let hs = env.handles.clone();
+                    let handle = ctx.spawn(move |cx| async move {
+                        interp_full::<Ef>(t, acc, cx, BTreeMap::new(), hs, Some(end)).await;
+                    });
+                    if let Some(slot) = slot {
+                        let h2 = handle.clone();
+                        env.slots.insert(*slot, Slot { abort: Arc::new(move || h2.abort()), join: Arc::new(move || handle.clone().boxed()) });
+                    }
+                }
+                Stmt::ChanSend(c) => {
+                    if let Some(tx) = env.tx.get(c) {
+                        let _ = tx.try_send(env.acc);
+                    }
+                }
+                Stmt::ChanRecv(c) => {
+                    if let Some(rx) = env.rx.get(c) {
+                        env.acc = match rx.recv().await {
+                            Ok(v) => v,
+                            Err(_) => super::ast::chan_closed(env.acc),
+                        };
+                    }
+                }
             }
         }
     }
@@ -453,7 +516,7 @@ fn legacy_stmts<'a>(stmts: &'a [Stmt], env: &'a mut LEnv, ctx: &'a LegacyCtx) ->
                 }
                 Stmt::HoldToken => env.tokens.push(Token::new()),
                 // not expressible with the legacy API: ignored (the generator does not emit them)
-                Stmt::Join(_) | Stmt::AbortTask(_) | Stmt::AwaitChain { .. } | Stmt::AbortCmd(_) => {}
+                Stmt::Join(_) | Stmt::AbortTask(_) | Stmt::AwaitChain { .. } | Stmt::AbortCmd(_) | Stmt::SpawnChan { .. } | Stmt::ChanSend(_) | Stmt::ChanRecv(_) => {}
             }
         }
     }
